@@ -135,7 +135,7 @@ class ShiftedServer(QueuedResource):
 
     def handle_event(self, event: Event):
         if event.event_type == _SHIFT_CHANGE:
-            return self._handle_shift_change()
+            return self._handle_shift_change(event)
 
         # On first real event, adopt the shift in force now (the capacity was
         # initialised for t=0) and schedule the first shift change
@@ -150,8 +150,12 @@ class ShiftedServer(QueuedResource):
 
         return super().handle_event(event)
 
-    def _handle_shift_change(self) -> list[Event]:
+    def _handle_shift_change(self, event: Event | None = None) -> list[Event]:
         time_s = self.now.to_seconds()
+        # The boundary this event was scheduled for (e.g. 1.001 s) can lie a fraction of a
+        # nanosecond after the instant it maps to; evaluate the schedule at the boundary.
+        if event is not None:
+            time_s = max(time_s, event.context.get("boundary_s", time_s))
         new_capacity = self.schedule.capacity_at(time_s)
         old_capacity = self._current_capacity
         self._current_capacity = new_capacity
@@ -184,6 +188,11 @@ class ShiftedServer(QueuedResource):
 
         current_s = self.now.to_seconds()
         next_t = self.schedule.next_transition_after(current_s)
+        # Skip boundaries that are not strictly in the future on the nanosecond clock: seen
+        # from the instant a boundary maps to, that same boundary can still look "ahead",
+        # and re-scheduling it would spin forever at a frozen clock.
+        while next_t is not None and Instant.from_seconds(next_t) <= self.now:
+            next_t = self.schedule.next_transition_after(next_t)
         if next_t is None:
             return None
 
@@ -192,6 +201,7 @@ class ShiftedServer(QueuedResource):
             event_type=_SHIFT_CHANGE,
             target=self,
             daemon=True,
+            context={"boundary_s": next_t},
         )
 
     def handle_queued_event(
